@@ -18,17 +18,18 @@ use std::sync::Arc;
 
 use arrow_array::{
     ArrayRef, BinaryArray, BooleanArray, Decimal128Array, FixedSizeBinaryArray, Float16Array, Float32Array,
-    Float64Array, Int32Array, Int64Array, RecordBatch, StringArray, UInt32Array, UInt64Array,
+    Array, Float64Array, Int32Array, Int64Array, ListArray, RecordBatch, StringArray, UInt32Array, UInt64Array,
 };
+use arrow_buffer::{NullBuffer, OffsetBuffer};
 use arrow_schema::{DataType as ArrowType, Field, Schema};
 use bytes::Bytes;
 use parquet::arrow::ArrowWriter;
-use parquet::basic::{BoundaryOrder, ColumnOrder, LogicalType, Repetition, Type as PhysicalType};
+use parquet::basic::{BoundaryOrder, ColumnOrder, ConvertedType, LogicalType, Repetition, Type as PhysicalType};
 use parquet::bloom_filter::Sbbf;
 use parquet::column::page::Page;
 use parquet::data_type::{
     AsBytes, BoolType, ByteArray, ByteArrayType, DoubleType, FixedLenByteArray, FixedLenByteArrayType, FloatType,
-    Int32Type, Int64Type,
+    Int32Type, Int64Type, Int96, Int96Type,
 };
 use parquet::file::metadata::{PageIndexPolicy, ParquetMetaData, ParquetMetaDataReader};
 use parquet::file::page_index::column_index::ColumnIndexMetaData;
@@ -56,6 +57,10 @@ enum Kind {
     Bin,
     Flba(usize),
     Bool,
+    /// FIXED_LEN_BYTE_ARRAY(12) with converted type INTERVAL: undefined order, no min/max
+    Interval,
+    /// INT96 (deprecated timestamp): undefined order
+    Int96,
 }
 
 fn parse_kind(s: &str) -> Kind {
@@ -71,6 +76,8 @@ fn parse_kind(s: &str) -> Kind {
         "utf8" => Kind::Utf8,
         "bin" => Kind::Bin,
         "bool" => Kind::Bool,
+        "interval" => Kind::Interval,
+        "int96" => Kind::Int96,
         _ => {
             if let Some(n) = s.strip_prefix("decflba") {
                 Kind::DecFlba(n.parse().unwrap())
@@ -97,6 +104,8 @@ fn kind_name(k: Kind) -> String {
         Kind::Bin => "bin".into(),
         Kind::Flba(n) => format!("flba{}", n),
         Kind::Bool => "bool".into(),
+        Kind::Interval => "interval".into(),
+        Kind::Int96 => "int96".into(),
     }
 }
 
@@ -142,7 +151,7 @@ fn cmp_values(k: Kind, total_order: bool, a: &[u8], b: &[u8]) -> Ordering {
             if total_order || x.is_nan() || y.is_nan() { x.total_cmp(&y) } else { x.partial_cmp(&y).unwrap() }
         }
         Kind::DecBa | Kind::DecFlba(_) => dec_value(a).cmp(&dec_value(b)),
-        Kind::Utf8 | Kind::Bin | Kind::Flba(_) => a.cmp(b),
+        Kind::Utf8 | Kind::Bin | Kind::Flba(_) | Kind::Interval | Kind::Int96 => a.cmp(b),
         Kind::Bool => a[0].cmp(&b[0]),
     }
 }
@@ -158,8 +167,9 @@ struct Cfg {
     rowlimit: usize, // data_page_row_count_limit
     flags: u32,      // 1 dictionary, 2 writer version 2, 4 nullable column, 8 page header statistics
     bloom: u8,       // 0 off, else index into BLOOM table
+    rg: usize,       // rows per row group (0 = one row group)
 }
-const BLOOM: [(u64, f64); 5] = [(0, 0.0), (1, 0.5), (4, 0.1), (64, 0.01), (1000, 0.05)];
+const BLOOM: [(u64, f64); 6] = [(0, 0.0), (1, 0.5), (4, 0.1), (64, 0.01), (1000, 0.05), (200000, 0.01)];
 
 fn props(cfg: &Cfg) -> WriterProperties {
     let mut b = WriterProperties::builder()
@@ -175,6 +185,9 @@ fn props(cfg: &Cfg) -> WriterProperties {
         .set_dictionary_enabled(cfg.flags & 1 != 0)
         .set_writer_version(if cfg.flags & 2 != 0 { WriterVersion::PARQUET_2_0 } else { WriterVersion::PARQUET_1_0 })
         .set_write_page_header_statistics(cfg.flags & 8 != 0);
+    if cfg.rg != 0 {
+        b = b.set_max_row_group_row_count(Some(cfg.rg));
+    }
     if cfg.bloom != 0 {
         let (ndv, fpp) = BLOOM[cfg.bloom as usize];
         b = b.set_bloom_filter_enabled(true).set_bloom_filter_max_ndv(ndv).set_bloom_filter_fpp(fpp);
@@ -201,10 +214,15 @@ fn schema(kind: Kind, nullable: bool) -> Arc<SchemaType> {
         Kind::Bin => (PhysicalType::BYTE_ARRAY, None, -1, -1),
         Kind::Flba(n) => (PhysicalType::FIXED_LEN_BYTE_ARRAY, None, n as i32, -1),
         Kind::Bool => (PhysicalType::BOOLEAN, None, -1, -1),
+        Kind::Interval => (PhysicalType::FIXED_LEN_BYTE_ARRAY, None, 12, -1),
+        Kind::Int96 => (PhysicalType::INT96, None, -1, -1),
     };
     let mut b = SchemaType::primitive_type_builder("c", pt)
         .with_repetition(if nullable { Repetition::OPTIONAL } else { Repetition::REQUIRED })
         .with_logical_type(lt);
+    if kind == Kind::Interval {
+        b = b.with_converted_type(ConvertedType::INTERVAL);
+    }
     if len >= 0 {
         b = b.with_length(len);
     }
@@ -256,55 +274,79 @@ fn show_batches(bs: &[Batch]) -> String {
 
 // ------------------------------------------------------------------------------ writers
 
+/// true minimum / maximum of the non-null, non-NaN values of a batch under the column order
+fn batch_min_max(kind: Kind, b: &Batch) -> Option<(Vec<u8>, Vec<u8>)> {
+    let vals: Vec<&Vec<u8>> = b.iter().flatten().filter(|v| !is_nan(kind, v)).collect();
+    let mn = vals.iter().min_by(|x, y| cmp_values(kind, true, x, y))?;
+    let mx = vals.iter().max_by(|x, y| cmp_values(kind, true, x, y))?;
+    Some(((*mn).clone(), (*mx).clone()))
+}
+
 fn write_cw(kind: Kind, cfg: &Cfg, batches: &[Batch]) -> Result<Vec<u8>, String> {
     let nullable = cfg.flags & 4 != 0;
+    let with_stats = cfg.flags & 32 != 0;
+    // row groups are cut at batch boundaries once `rg` rows have been written
+    let mut groups: Vec<Vec<&Batch>> = vec![vec![]];
+    let mut rows = 0usize;
+    for b in batches {
+        if cfg.rg != 0 && rows >= cfg.rg {
+            groups.push(vec![]);
+            rows = 0;
+        }
+        groups.last_mut().unwrap().push(b);
+        rows += b.len();
+    }
     let mut buf: Vec<u8> = vec![];
     {
         let mut w = SerializedFileWriter::new(&mut buf, schema(kind, nullable), Arc::new(props(cfg)))
             .map_err(|e| e.to_string())?;
-        let mut rg = w.next_row_group().map_err(|e| e.to_string())?;
-        {
-            let mut col = rg.next_column().map_err(|e| e.to_string())?.expect("one column");
-            for b in batches {
-                let defs: Vec<i16> = b.iter().map(|v| v.is_some() as i16).collect();
-                let d = if nullable { Some(&defs[..]) } else { None };
-                let vals: Vec<&Vec<u8>> = b.iter().flatten().collect();
-                let r = match kind {
-                    Kind::I32 | Kind::U32 => {
-                        let v: Vec<i32> = vals.iter().map(|x| i32::from_le_bytes(x[..].try_into().unwrap())).collect();
-                        col.typed::<Int32Type>().write_batch(&v, d, None)
+        for group in &groups {
+            let mut rg = w.next_row_group().map_err(|e| e.to_string())?;
+            {
+                let mut col = rg.next_column().map_err(|e| e.to_string())?.expect("one column");
+                for b in group {
+                    let defs: Vec<i16> = b.iter().map(|v| v.is_some() as i16).collect();
+                    let d = if nullable { Some(&defs[..]) } else { None };
+                    let vals: Vec<&Vec<u8>> = b.iter().flatten().collect();
+                    let mm = if with_stats { batch_min_max(kind, b) } else { None };
+                    macro_rules! put {
+                        ($ty:ty, $conv:expr) => {{
+                            let v: Vec<_> = vals.iter().map(|x| $conv(&x[..])).collect();
+                            match &mm {
+                                Some((mn, mx)) => {
+                                    let (mn, mx) = ($conv(&mn[..]), $conv(&mx[..]));
+                                    col.typed::<$ty>().write_batch_with_statistics(&v, d, None, Some(&mn), Some(&mx), None)
+                                }
+                                None => col.typed::<$ty>().write_batch(&v, d, None),
+                            }
+                        }};
                     }
-                    Kind::I64 | Kind::U64 => {
-                        let v: Vec<i64> = vals.iter().map(|x| i64::from_le_bytes(x[..].try_into().unwrap())).collect();
-                        col.typed::<Int64Type>().write_batch(&v, d, None)
-                    }
-                    Kind::F32 => {
-                        let v: Vec<f32> = vals.iter().map(|x| f32::from_le_bytes(x[..].try_into().unwrap())).collect();
-                        col.typed::<FloatType>().write_batch(&v, d, None)
-                    }
-                    Kind::F64 => {
-                        let v: Vec<f64> = vals.iter().map(|x| f64::from_le_bytes(x[..].try_into().unwrap())).collect();
-                        col.typed::<DoubleType>().write_batch(&v, d, None)
-                    }
-                    Kind::Bool => {
-                        let v: Vec<bool> = vals.iter().map(|x| x[0] != 0).collect();
-                        col.typed::<BoolType>().write_batch(&v, d, None)
-                    }
-                    Kind::DecBa | Kind::Utf8 | Kind::Bin => {
-                        let v: Vec<ByteArray> = vals.iter().map(|x| ByteArray::from((*x).clone())).collect();
-                        col.typed::<ByteArrayType>().write_batch(&v, d, None)
-                    }
-                    Kind::F16 | Kind::DecFlba(_) | Kind::Flba(_) => {
-                        let v: Vec<FixedLenByteArray> =
-                            vals.iter().map(|x| FixedLenByteArray::from(ByteArray::from((*x).clone()))).collect();
-                        col.typed::<FixedLenByteArrayType>().write_batch(&v, d, None)
-                    }
-                };
-                r.map_err(|e| e.to_string())?;
+                    let r = match kind {
+                        Kind::I32 | Kind::U32 => put!(Int32Type, |x: &[u8]| i32::from_le_bytes(x.try_into().unwrap())),
+                        Kind::I64 | Kind::U64 => put!(Int64Type, |x: &[u8]| i64::from_le_bytes(x.try_into().unwrap())),
+                        Kind::F32 => put!(FloatType, |x: &[u8]| f32::from_le_bytes(x.try_into().unwrap())),
+                        Kind::F64 => put!(DoubleType, |x: &[u8]| f64::from_le_bytes(x.try_into().unwrap())),
+                        Kind::Bool => put!(BoolType, |x: &[u8]| x[0] != 0),
+                        Kind::DecBa | Kind::Utf8 | Kind::Bin => put!(ByteArrayType, |x: &[u8]| ByteArray::from(x.to_vec())),
+                        Kind::F16 | Kind::DecFlba(_) | Kind::Flba(_) | Kind::Interval => {
+                            put!(FixedLenByteArrayType, |x: &[u8]| FixedLenByteArray::from(ByteArray::from(x.to_vec())))
+                        }
+                        Kind::Int96 => put!(Int96Type, |x: &[u8]| {
+                            let mut v = Int96::new();
+                            v.set_data(
+                                u32::from_le_bytes(x[0..4].try_into().unwrap()),
+                                u32::from_le_bytes(x[4..8].try_into().unwrap()),
+                                u32::from_le_bytes(x[8..12].try_into().unwrap()),
+                            );
+                            v
+                        }),
+                    };
+                    r.map_err(|e| e.to_string())?;
+                }
+                col.close().map_err(|e| e.to_string())?;
             }
-            col.close().map_err(|e| e.to_string())?;
+            rg.close().map_err(|e| e.to_string())?;
         }
-        rg.close().map_err(|e| e.to_string())?;
         w.close().map_err(|e| e.to_string())?;
     }
     Ok(buf)
@@ -348,19 +390,115 @@ fn arrow_array(kind: Kind, b: &Batch) -> ArrayRef {
             FixedSizeBinaryArray::try_from_sparse_iter_with_size(b.iter().map(|v| v.as_ref().map(|x| &x[..])), n as i32).unwrap(),
         ),
         Kind::Bool => Arc::new(BooleanArray::from_iter(b.iter().map(|v| v.as_ref().map(|x| x[0] != 0)))),
-        Kind::DecBa => unreachable!(),
+        Kind::DecBa | Kind::Interval | Kind::Int96 => unreachable!(),
     }
 }
 
-fn write_aw(kind: Kind, cfg: &Cfg, batches: &[Batch]) -> Result<Vec<u8>, String> {
+/// extreme junk value of a kind (`hi` = maximal, else minimal): used for the elements sliced
+/// away and for the payload under null slots, so that a leak shows up in the statistics
+fn junk(kind: Kind, hi: bool) -> Vec<u8> {
+    match kind {
+        Kind::I32 => (if hi { i32::MAX } else { i32::MIN }).to_le_bytes().to_vec(),
+        Kind::U32 => (if hi { u32::MAX } else { 0 }).to_le_bytes().to_vec(),
+        Kind::I64 => (if hi { i64::MAX } else { i64::MIN }).to_le_bytes().to_vec(),
+        Kind::U64 => (if hi { u64::MAX } else { 0 }).to_le_bytes().to_vec(),
+        Kind::F32 => (if hi { f32::INFINITY } else { f32::NEG_INFINITY }).to_le_bytes().to_vec(),
+        Kind::F64 => (if hi { f64::INFINITY } else { f64::NEG_INFINITY }).to_le_bytes().to_vec(),
+        Kind::F16 => (if hi { 0x7C00u16 } else { 0xFC00u16 }).to_le_bytes().to_vec(),
+        Kind::DecFlba(n) => {
+            let mut v = vec![if hi { 0xFFu8 } else { 0 }; n];
+            v[0] = if hi { 0x7F } else { 0x80 };
+            v
+        }
+        Kind::Flba(n) => vec![if hi { 0xFF } else { 0 }; n],
+        Kind::Utf8 => if hi { "\u{10FFFF}\u{10FFFF}\u{10FFFF}".as_bytes().to_vec() } else { vec![] },
+        Kind::Bin | Kind::DecBa => if hi { vec![0xFF; 9] } else { vec![] },
+        Kind::Bool => vec![hi as u8],
+        Kind::Interval | Kind::Int96 => vec![if hi { 0xFF } else { 0 }; 12],
+    }
+}
+
+/// Arrow array of a batch.  `variant`: 0 plain, 1 large offsets, 2 view arrays, 3 dictionary.
+/// `sliced`: the array is a slice (offset 1) of a longer one with extreme junk around it, and
+/// null slots of primitive / string / binary arrays carry extreme junk payload.
+fn arrow_array_variant(kind: Kind, b: &Batch, variant: u8, sliced: bool) -> ArrayRef {
+    let base: ArrayRef = if !sliced {
+        arrow_array(kind, b)
+    } else {
+        let n = b.len();
+        let mut ext: Batch = vec![Some(junk(kind, true))];
+        ext.extend(b.iter().cloned());
+        ext.push(Some(junk(kind, false)));
+        let hi = junk(kind, true);
+        let nulls = NullBuffer::from(ext.iter().map(|v| v.is_some()).collect::<Vec<bool>>());
+        let nulls = if nulls.null_count() == 0 { None } else { Some(nulls) };
+        macro_rules! prim {
+            ($arr:ty, $conv:expr) => {{
+                let vals: Vec<_> = ext.iter().map(|v| $conv(&v.as_ref().unwrap_or(&hi)[..])).collect();
+                Arc::new(<$arr>::new(vals.into(), nulls.clone())) as ArrayRef
+            }};
+        }
+        let full: ArrayRef = match kind {
+            Kind::I32 => prim!(Int32Array, |x: &[u8]| i32::from_le_bytes(x.try_into().unwrap())),
+            Kind::U32 => prim!(UInt32Array, |x: &[u8]| u32::from_le_bytes(x.try_into().unwrap())),
+            Kind::I64 => prim!(Int64Array, |x: &[u8]| i64::from_le_bytes(x.try_into().unwrap())),
+            Kind::U64 => prim!(UInt64Array, |x: &[u8]| u64::from_le_bytes(x.try_into().unwrap())),
+            Kind::F32 => prim!(Float32Array, |x: &[u8]| f32::from_le_bytes(x.try_into().unwrap())),
+            Kind::F64 => prim!(Float64Array, |x: &[u8]| f64::from_le_bytes(x.try_into().unwrap())),
+            Kind::F16 => prim!(Float16Array, |x: &[u8]| half::f16::from_le_bytes(x.try_into().unwrap())),
+            Kind::Utf8 | Kind::Bin => {
+                // null slots span junk bytes in the values buffer
+                let mut offsets: Vec<i32> = vec![0];
+                let mut data: Vec<u8> = vec![];
+                for v in &ext {
+                    data.extend_from_slice(v.as_ref().unwrap_or(&hi));
+                    offsets.push(data.len() as i32);
+                }
+                let off = OffsetBuffer::new(offsets.into());
+                if kind == Kind::Utf8 {
+                    Arc::new(StringArray::new(off, data.into(), nulls.clone())) as ArrayRef
+                } else {
+                    Arc::new(BinaryArray::new(off, data.into(), nulls.clone())) as ArrayRef
+                }
+            }
+            _ => arrow_array(kind, &ext),
+        };
+        full.slice(1, n)
+    };
+    let base_type = base.data_type().clone();
+    match (variant, kind) {
+        (1, Kind::Utf8) => arrow_cast::cast(&base, &ArrowType::LargeUtf8).unwrap(),
+        (1, Kind::Bin) => arrow_cast::cast(&base, &ArrowType::LargeBinary).unwrap(),
+        (2, Kind::Utf8) => arrow_cast::cast(&base, &ArrowType::Utf8View).unwrap(),
+        (2, Kind::Bin) => arrow_cast::cast(&base, &ArrowType::BinaryView).unwrap(),
+        (3, Kind::Utf8 | Kind::Bin | Kind::I32 | Kind::U32 | Kind::I64 | Kind::U64 | Kind::F32 | Kind::F64) => {
+            arrow_cast::cast(&base, &ArrowType::Dictionary(Box::new(ArrowType::Int32), Box::new(base_type))).unwrap()
+        }
+        _ => base,
+    }
+}
+
+fn aw_variant(api: &str) -> u8 {
+    match api {
+        "awl" => 1,
+        "awv" => 2,
+        "awd" => 3,
+        _ => 0,
+    }
+}
+
+fn write_aw(kind: Kind, cfg: &Cfg, batches: &[Batch], variant: u8) -> Result<Vec<u8>, String> {
     let nullable = cfg.flags & 4 != 0;
-    let dt = arrow_type(kind).ok_or("kind not available through ArrowWriter")?;
+    let sliced = cfg.flags & 16 != 0;
+    arrow_type(kind).ok_or("kind not available through ArrowWriter")?;
+    let dt = arrow_array_variant(kind, &vec![], variant, false).data_type().clone();
     let sch = Arc::new(Schema::new(vec![Field::new("c", dt, nullable)]));
     let mut buf: Vec<u8> = vec![];
     {
         let mut w = ArrowWriter::try_new(&mut buf, sch.clone(), Some(props(cfg))).map_err(|e| e.to_string())?;
         for b in batches {
-            let rb = RecordBatch::try_new(sch.clone(), vec![arrow_array(kind, b)]).map_err(|e| e.to_string())?;
+            let rb = RecordBatch::try_new(sch.clone(), vec![arrow_array_variant(kind, b, variant, sliced)])
+                .map_err(|e| e.to_string())?;
             w.write(&rb).map_err(|e| e.to_string())?;
         }
         w.close().map_err(|e| e.to_string())?;
@@ -434,60 +572,63 @@ fn col_idx(ci: &ColumnIndexMetaData) -> ColIdx {
     r
 }
 
-fn read_back(file: Vec<u8>) -> Result<ReadBack, String> {
+fn read_back(file: Vec<u8>) -> Result<(Vec<ReadBack>, ParquetMetaData), String> {
     let bytes = Bytes::from(file);
     let md: ParquetMetaData = ParquetMetaDataReader::new()
         .with_page_index_policy(PageIndexPolicy::Optional)
         .parse_and_finish(&bytes)
         .map_err(|e| e.to_string())?;
-    let mut r = ReadBack::default();
-    r.num_rows = md.file_metadata().num_rows();
-    r.n_row_groups = md.num_row_groups();
-    r.total_order = matches!(md.file_metadata().column_order(0), ColumnOrder::IEEE_754_TOTAL_ORDER);
-    if r.n_row_groups == 0 {
-        return Ok(r);
-    }
-    let cc = md.row_group(0).column(0);
-    if let Some(st) = cc.statistics() {
-        r.has_stats = true;
-        r.min = st.min_bytes_opt().map(|b| b.to_vec());
-        r.max = st.max_bytes_opt().map(|b| b.to_vec());
-        r.min_exact = st.min_is_exact();
-        r.max_exact = st.max_is_exact();
-        r.null_count = st.null_count_opt();
-        r.nan_count = st.nan_count_opt();
-    }
-    if let Some(pi) = md.page_index() {
-        r.ci = pi.column_index(0, 0).map(col_idx);
-        r.first_rows = pi.offset_index(0, 0).map(|oi| oi.page_locations().iter().map(|p| p.first_row_index).collect());
-    }
+    let total_order = matches!(md.file_metadata().column_order(0), ColumnOrder::IEEE_754_TOTAL_ORDER);
     let opts = ReadOptionsBuilder::new()
         .with_reader_properties(ReaderProperties::builder().set_read_bloom_filter(true).build())
         .build();
     let fr = SerializedFileReader::new_with_options(bytes, opts).map_err(|e| e.to_string())?;
-    let rg = fr.get_row_group(0).map_err(|e| e.to_string())?;
-    r.bloom = rg.get_column_bloom_filter(0).cloned();
-    let mut pr = rg.get_column_page_reader(0).map_err(|e| e.to_string())?;
-    while let Some(p) = pr.get_next_page().map_err(|e| e.to_string())? {
-        if let Page::DictionaryPage { .. } = p {
-            continue;
+    let mut out = vec![];
+    for g in 0..md.num_row_groups() {
+        let mut r = ReadBack::default();
+        r.num_rows = md.row_group(g).num_rows();
+        r.n_row_groups = md.num_row_groups();
+        r.total_order = total_order;
+        let cc = md.row_group(g).column(0);
+        if let Some(st) = cc.statistics() {
+            r.has_stats = true;
+            r.min = st.min_bytes_opt().map(|b| b.to_vec());
+            r.max = st.max_bytes_opt().map(|b| b.to_vec());
+            r.min_exact = st.min_is_exact();
+            r.max_exact = st.max_is_exact();
+            r.null_count = st.null_count_opt();
+            r.nan_count = st.nan_count_opt();
         }
-        let (mn, mx) = match p.statistics() {
-            Some(s) => (s.min_bytes_opt().map(|b| b.to_vec()), s.max_bytes_opt().map(|b| b.to_vec())),
-            None => (None, None),
-        };
-        r.pages.push((p.num_values() as usize, mn, mx));
+        if let Some(pi) = md.page_index() {
+            r.ci = pi.column_index(g, 0).map(col_idx);
+            r.first_rows =
+                pi.offset_index(g, 0).map(|oi| oi.page_locations().iter().map(|p| p.first_row_index).collect());
+        }
+        let rg = fr.get_row_group(g).map_err(|e| e.to_string())?;
+        r.bloom = rg.get_column_bloom_filter(0).cloned();
+        let mut pr = rg.get_column_page_reader(0).map_err(|e| e.to_string())?;
+        while let Some(p) = pr.get_next_page().map_err(|e| e.to_string())? {
+            if let Page::DictionaryPage { .. } = p {
+                continue;
+            }
+            let (mn, mx) = match p.statistics() {
+                Some(s) => (s.min_bytes_opt().map(|b| b.to_vec()), s.max_bytes_opt().map(|b| b.to_vec())),
+                None => (None, None),
+            };
+            r.pages.push((p.num_values() as usize, mn, mx));
+        }
+        out.push(r);
     }
-    Ok(r)
+    Ok((out, md))
 }
 
 // ------------------------------------------------------------------------------- oracle
 
 /// the property checked directly on the file; returns the list of failures
-fn oracle(kind: Kind, cfg: &Cfg, batches: &[Batch], rb: &ReadBack) -> Vec<String> {
+fn oracle_rg(kind: Kind, cfg: &Cfg, rows: &[&Option<Vec<u8>>], rb: &ReadBack) -> Vec<String> {
     let mut bad = vec![];
-    let rows: Vec<&Option<Vec<u8>>> = batches.iter().flatten().collect();
     let n = rows.len();
+    let undefined_order = matches!(kind, Kind::Interval | Kind::Int96);
     let lt = |a: &[u8], b: &[u8]| cmp_values(kind, rb.total_order, a, b) == Ordering::Less;
     if rb.num_rows != n as i64 {
         bad.push(format!("num_rows {} != {}", rb.num_rows, n));
@@ -1240,6 +1381,8 @@ fn t_kind(k: Kind) -> &'static str {
         Kind::Bin => "bin",
         Kind::Flba(_) => "flba",
         Kind::Bool => "bool",
+        Kind::Interval => "interval",
+        Kind::Int96 => "int96",
     }
 }
 
